@@ -155,3 +155,20 @@ Qed.
 (* a message with an interior NUL makes _yrx_set_last_error panic *)
 Lemma to_cstring_partial : exists m, to_cstring set_conversion m = None.
 Proof. exists [102; 0; 111]. reflexivity. Qed.
+
+(* --- flags of yrx_compiler_create (finite fact over the generated table) ----- *)
+From YV Require Import Capi.Flags.
+
+Lemma flags_table_ok_now : flags_table_ok = true.
+Proof. vm_compute. reflexivity. Qed.
+
+Lemma flags_named_lemma : forall c v m a,
+  In (c, v, m, a) compiler_flags -> expected_method c = Some (m, a).
+Proof.
+  intros c v m a Hin. pose proof flags_table_ok_now as H. unfold flags_table_ok in H.
+  do 4 (apply andb_true_iff in H; destruct H as [H ?]).
+  rewrite forallb_forall in H. specialize (H _ Hin). cbn [flag_ok] in H.
+  destruct (expected_method c) as [[em ea]|]; [|discriminate].
+  apply andb_true_iff in H. destruct H as [Hm Ha].
+  apply String.eqb_eq in Hm. apply Bool.eqb_prop in Ha. now subst.
+Qed.
